@@ -108,6 +108,7 @@ def run(ctx):
     quick = ctx.tier == "quick"
     rng = ctx.rng
     jobs, nstruct, struct_diff, bis = [], 0, 0, []
+    skipped_unsafe = 0
     stream = c02.program_stream(ctx, 30 if quick else 400, yield_share=0.2)
     for i in range(20 if quick else 200):        # string-heavy programs: the storage options only matter for str outputs
         p = gen.Profile(max_stmts=5, delete=4, assigns=3, append=6, appc=3, hook=3, assign=1, if_=1, try_=3)
@@ -124,8 +125,16 @@ def run(ctx):
         sets = repr_sets(rng, 3 if quick else 8)
         if "str" in src and ("delete" in src or '= "";' in src):
             sets.append(["-fallocate-str-space-dynamic-on-demand", "-fdelete-string-free-memory", "-O2"])   # the heap mode with the most states
+        def has_index(k):
+            return isinstance(k, (tuple, list)) and ((len(k) > 0 and k[0] == "index") or any(has_index(x) for x in k))
+        indexes = any(has_index(info.get("expr")) for info in I.test_info + I.prim_info)
         for fl in sets:
             fl = list(dict.fromkeys(base + fl))
+            if indexes and "-funsafe-string-indexing" in fl:
+                # the option hands the validity of every index (in range, and into a string that holds something - an on-demand
+                # string has no buffer before) to the program's author; generated programs do not promise it
+                fl.remove("-funsafe-string-indexing")
+                skipped_unsafe += 1
             P = cdrv.prepare_compile(src, fl, max_states=150, interner=I)
             if not P["ok"]:
                 if P["verdict"] != "ok":
@@ -158,10 +167,10 @@ def run(ctx):
     ctx.coverage.update({
         "programs": len(results), "disagreements_checked": nviol + struct_diff, "option_sets_compared_structurally": nstruct,
         "binaries_run": sum(r["variants"] for r in results), "runs": sum(r["runs"] for r in results), "skipped_variants": dict(skipped),
-        "flags_varied": REPR_FLAGS + ["--collapsed-range-length {1,2,8}"],
+        "flags_varied": REPR_FLAGS + ["--collapsed-range-length {1,2,8}"], "unsafe_indexing_dropped_for_programs_with_index_expressions": skipped_unsafe,
         "checker_cmd": "ocaml/machk bisim (Bisim.dfa_equiv_cert) between option sets + differential runs of gcc-built binaries",
     })
     ctx.samples += [{"program": r["name"], "variants": r["variants"], "runs": r["runs"]} for r in results[::max(1, len(results) // 8)]][:10]
     ctx.trusted += ["gcc and the C semantics of the emitted text", "harness/export.py, harness/cdrv.py (driver, observation extraction)"]
     ctx.assumptions += ["differential by nature: relational over inputs, sampled inputs and option sets (every pair of flags is covered with high probability over the run, not by construction)",
-                        "unsafe indexing is only compared on in-range indices when the model/reference agree; allocator failure is out of scope"]
+                        "-funsafe-string-indexing is exercised only on programs without string index expressions (the option makes the validity of every index the author's responsibility); allocator failure is out of scope"]
